@@ -86,6 +86,8 @@ func (publisherSelf *PublisherDef[T]) Publish(result T) {
 
 	verifPoint("publisher.publish.afterSnapshot")
 	for _, s := range subscribers {
+		// Own copy per delivery: with SubscribeOn the closure below runs later, on the handler goroutine
+		s := s
 		verifPoint("publisher.publish.beforeDelivery")
 		if s.OnNext != nil {
 
